@@ -247,6 +247,39 @@ example :
     s.established = some false ∧ callbacks s = [] ∧ s.q.done = [jobOpen, jobClose] := by
   decide
 
+/-! ### the executor installed by `Upgrade` (decision table `execOf`) -/
+
+/-- **Every poller-driven (non-transferred) scenario uses the conn's job queue**, in every epoll mode — ET+ONESHOT
+    included: the queue that runs the HTTP handler (hence the open callback) and the close job also runs the message
+    callbacks, which is what makes the ordering theorems above (open completes before any message, strictly serial,
+    close last) and C05's "handlers and callbacks of one connection never overlap" apply to these connections. -/
+theorem c14_poller_scenarios_use_conn_queue (sc : Scenario) (mode : EpollMode) (hp : Bool) :
+    pollerDriven sc = true → execOf sc mode hp = .connQueue := by
+  cases sc <;> simp [pollerDriven, execOf]
+
+/-- `SyncExecutor` is installed only on a conn transferred to an ET+ONESHOT poller (one reading goroutine at a time,
+    re-armed when it is done) or on a blocking conn read by its single reader goroutine; a non-transferred scenario
+    never leaves the job queue for it. -/
+theorem c14_sync_executor_where (sc : Scenario) (mode : EpollMode) (hp : Bool) :
+    execOf sc mode hp = .sync →
+      (transferred sc = true ∧ mode = .etOneshot) ∨ (pollerDriven sc = false ∧ transferred sc = false ∧ hp = true) := by
+  cases sc <;> cases mode <;> cases hp <;> simp [execOf, blockingParserExec, transferred, pollerDriven]
+
+/-- the epoll mode matters for transferred conns only -/
+theorem c14_mode_matters_only_when_transferred (sc : Scenario) (m m' : EpollMode) (hp : Bool) :
+    transferred sc = false → execOf sc m hp = execOf sc m' hp := by
+  cases sc <;> simp [transferred, execOf]
+
+/-- **Seeded variant C14-d is not the table**: hoisting the ET+ONESHOT rule behind the switch (guard `nbc != nil`)
+    takes the plain poller-driven upgrade out of the job queue. -/
+theorem c14_hoisted_rule_counterexample :
+    execOfHoisted .s1 .etOneshot true = .sync ∧ execOf .s1 .etOneshot true = .connQueue ∧
+    execOfHoisted .s2_2 .etOneshot true = .sync ∧
+    (∀ sc hp, execOfHoisted sc .lt hp = execOf sc .lt hp ∧ execOfHoisted sc .et hp = execOf sc .et hp) := by
+  refine ⟨by decide, by decide, by decide, ?_⟩
+  intro sc hp
+  cases sc <;> cases hp <;> decide
+
 end WsCb
 
 /-! ## Part B — writers -/
